@@ -11,6 +11,7 @@ package vsched
 
 import (
 	"bytes"
+	"reflect"
 	"runtime"
 	"strconv"
 	"sync"
@@ -226,6 +227,46 @@ func Sleep(d time.Duration) {
 		return
 	}
 	Gate("time.sleep", nil, nil)
+}
+
+// Select replaces a blocking select whose cases are all plain receives. Channels whose element type is time.Time are
+// timers: time is not modelled, so a timer may fire whenever the scheduler lets the goroutine run - but it is only taken
+// when no other case is ready (an execution in which the timer has not expired yet is always possible). One gate,
+// labelled like Sleep when a timer is among the cases. Returns the index of the chosen case.
+func Select(chs ...interface{}) int {
+	cases := make([]reflect.SelectCase, len(chs))
+	timer := -1
+	for i, c := range chs {
+		v := reflect.ValueOf(c)
+		cases[i] = reflect.SelectCase{Dir: reflect.SelectRecv, Chan: v}
+		if timer < 0 && v.Type().Elem() == reflect.TypeOf(time.Time{}) {
+			timer = i
+		}
+	}
+	if Free || cur() == nil {
+		i, _, _ := reflect.Select(cases)
+		return i
+	}
+	ready := func() int {
+		for i, c := range cases {
+			if i == timer || c.Chan.Type().Elem() == reflect.TypeOf(time.Time{}) {
+				continue
+			}
+			if j, _, _ := reflect.Select([]reflect.SelectCase{c, {Dir: reflect.SelectDefault}}); j == 0 {
+				return i
+			}
+		}
+		return -1
+	}
+	label := "ch.select"
+	if timer >= 0 {
+		label = "time.sleep"
+	}
+	Gate(label, func() bool { return timer >= 0 || ready() >= 0 }, nil)
+	if i := ready(); i >= 0 {
+		return i
+	}
+	return timer
 }
 
 // Yield is a plain gate usable by players (e.g. inside a recording writer).
